@@ -429,6 +429,12 @@ def single_extensions(rng):
     for side in ('client', 'server'):
         for obj, wire, _, _ in extension_pairs(rng, side):
             pairs.append(Pair('extension-%s-%s' % (side, type(obj).__name__), obj, wire))
+    # parse direction only: A-labels whose Punycode part carries capital letters (Punycode keeps the case of basic code points,
+    # RFC 3492 appendix A), and an upper-case ACE prefix; the library composes such names in another spelling (known finding)
+    ext = _mods()[0]
+    for host, host_wire in ((u'B\xfccher.example', b'xn--Bcher-kva.example'), (u'\xedSLAND.example', b'xn--SLAND-ysa.example')):
+        pairs.append(Pair('extension-client-server-name+mixed-case-a-label', ext.TlsExtensionServerNameClient(host),
+                          ref.extension(0, ref.ext_server_name(host_wire)), compose_must_match=False))
     obj, payload, code = npn_server_pair(rng)
     # the NPN server extension is encoded by the library without the extension_data length (see C06 finding)
     pairs.append(Pair('extension-server-TlsExtensionNextProtocolNegotiationServer', obj, ref.extension(code, payload)))
